@@ -28,12 +28,16 @@ const (
 type AbsVal struct {
 	K  AbsKind
 	Fn *ssa.Function // function value, when known
+	G  *ssa.Global   // identity of a package-level error variable, when known
 }
 
 func (a AbsVal) String() string {
 	s := [...]string{"?", "true", "false", "nil", "nonnil"}[a.K]
 	if a.Fn != nil {
 		s += ":" + a.Fn.Name()
+	}
+	if a.G != nil {
+		s += ":" + a.G.Name()
 	}
 	return s
 }
@@ -470,7 +474,7 @@ func (s *Spec) abs(v ssa.Value, st *walkState) AbsVal {
 		}
 		if x.Op == token.MUL {
 			if g, ok := x.X.(*ssa.Global); ok && s.P != nil && s.P.globalNonNil(g) {
-				return AbsVal{K: ANonNil}
+				return AbsVal{K: ANonNil, G: g}
 			}
 			if a, ok := x.X.(*ssa.Alloc); ok {
 				if v, ok := st.cells[a]; ok {
@@ -487,6 +491,12 @@ func (s *Spec) abs(v ssa.Value, st *walkState) AbsVal {
 				res.K = ATrue
 			case (a.K == ANil && b.K == ANonNil) || (a.K == ANonNil && b.K == ANil):
 				res.K = AFalse
+			case a.G != nil && b.G != nil:
+				if a.G == b.G {
+					res.K = ATrue
+				} else {
+					res.K = AFalse
+				}
 			case (a.K == ATrue || a.K == AFalse) && (b.K == ATrue || b.K == AFalse):
 				if a.K == b.K {
 					res.K = ATrue
